@@ -649,3 +649,37 @@ def alpha_norm(expr: ast.expr, bound: Optional[Dict[str, str]] = None) -> str:
 
     rn(e, env)
     return ast.unparse(e)
+
+
+_SET_ALGEBRA = (ast.Sub, ast.BitAnd, ast.BitOr, ast.BitXor)
+_SET_QUERIES = {"add", "discard", "update", "remove", "issubset", "issuperset", "isdisjoint", "intersection_update", "difference_update", "clear"}
+
+
+def order_free_use(node: ast.AST, scope: ast.AST, depth: int = 4) -> bool:
+    """The value of `node` (a set) is used only in ways that cannot let its iteration order out: membership and truth tests,
+    len(), set algebra and comparisons whose result is used the same way, sorted(..) (the elements decide, not their order),
+    the message of a `raise`, the order-free methods of a set.  A local name it is bound to is followed."""
+    p = parent(node)
+    if p is None or depth < 0:
+        return False
+    if enclosing(node, ast.Raise) is not None:
+        return True
+    if isinstance(p, ast.Compare):
+        return True                                    # in / not in / == / <= ... give a bool
+    if isinstance(p, (ast.If, ast.While, ast.IfExp, ast.Assert)) and getattr(p, "test", None) is node:
+        return True
+    if isinstance(p, ast.UnaryOp) and isinstance(p.op, ast.Not):
+        return True
+    if isinstance(p, ast.BoolOp):
+        return order_free_use(p, scope, depth - 1) or isinstance(parent(p), (ast.If, ast.While, ast.IfExp, ast.Assert))
+    if isinstance(p, ast.BinOp) and isinstance(p.op, _SET_ALGEBRA):
+        return order_free_use(p, scope, depth - 1)
+    if isinstance(p, ast.Call) and node in p.args and isinstance(p.func, ast.Name) and p.func.id in ("len", "bool", "sorted", "frozenset", "set", "any", "all", "min", "max", "sum"):
+        return p.func.id in ("len", "bool", "sorted", "any", "all", "min", "max", "sum") or order_free_use(p, scope, depth - 1)
+    if isinstance(p, ast.Attribute) and p.value is node and p.attr in _SET_QUERIES:
+        return True
+    if isinstance(p, ast.Assign) and p.value is node and len(p.targets) == 1 and isinstance(p.targets[0], ast.Name):
+        nm = p.targets[0].id
+        uses = [u for u in ast.walk(scope) if isinstance(u, ast.Name) and u.id == nm and isinstance(u.ctx, ast.Load)]
+        return bool(uses) and all(order_free_use(u, scope, depth - 1) for u in uses)
+    return False
